@@ -1526,7 +1526,50 @@ var reviewedNameProducers = map[string]string{
 
 func (c *Ctx) panicPrimitiveCall(ci ssa.CallInstruction) bool {
 	n := calleeName(ci.Common())
-	return n == "logx.Panic" || n == "logx.PanicOnError" || n == "builtin.panic"
+	if n == "logx.Panic" || n == "logx.PanicOnError" || n == "builtin.panic" {
+		return true
+	}
+	if callee := staticCallee(ci.Common()); callee != nil && c.isRepoFunc(callee) {
+		return c.panicForwarder(callee)
+	}
+	return false
+}
+
+// panicForwarder: a function whose only way to panic is to hand its own error parameter straight to logx.PanicOnError /
+// logx.Panic (Must(v, err) helpers): for its callers it is the primitive itself, under another name.
+func (c *Ctx) panicForwarder(fn *ssa.Function) bool {
+	if o := fn.Origin(); o != nil {
+		fn = o
+	}
+	if c.forwarders == nil {
+		c.forwarders = map[*ssa.Function]bool{}
+	}
+	if r, ok := c.forwarders[fn]; ok {
+		return r
+	}
+	c.forwarders[fn] = false
+	n, good := 0, true
+	allInstrs(fn, func(in ssa.Instruction) {
+		switch x := in.(type) {
+		case *ssa.Panic:
+			good = false
+		case ssa.CallInstruction:
+			cn := calleeName(x.Common())
+			if cn == "builtin.panic" {
+				good = false
+			}
+			if cn == "logx.Panic" || cn == "logx.PanicOnError" {
+				n++
+				args := x.Common().Args
+				p, isParam := args[0].(*ssa.Parameter)
+				if len(args) != 1 || !isParam || p.Parent() != fn || typeName(p.Type()) != "error" {
+					good = false
+				}
+			}
+		}
+	})
+	c.forwarders[fn] = good && n > 0
+	return good && n > 0
 }
 
 // reviewedAsserts: unchecked type assertions that cannot fail, with the reason.
@@ -1697,6 +1740,10 @@ func ruleMust(c *Ctx) {
 		fn := p0[name]
 		rv, ok := reviewedPanicFuncs[name]
 		c.site(1)
+		if !ok && c.panicForwarder(fn) {
+			c.ok("inventory|"+name, c.pos(fn.Pos()), name, "hands its own error parameter to logx.PanicOnError and does nothing else that panics: a primitive under another name, its callers are judged like callers of PanicOnError")
+			continue
+		}
 		if !ok {
 			c.bad("inventory|"+name, c.pos(fn.Pos()), name, "function can panic (calls logx.Panic / PanicOnError / panic) and is not in the reviewed inventory: untrusted input reaching it crashes crd; review it and add it to reviewedPanicFuncs with the invariant that guards it")
 			continue
